@@ -9,8 +9,11 @@ MODULE = {
         "is_twitter_url": {"types": {"url": "Obj", "hostname": "Opt[Str]"}, "returns": "Bool", "ensures": []},  # total: get_hostname swallows urlsplit's ValueError
         "normalize_screen_name": {"types": {"username": "Str"}, "returns": "Opt[Str]", "ensures": []},
         "parse_twitter_url": {
-            "types": {"url": "Obj", "parsed": "Obj", "path": "Seq[Str]", "user_screen_name": "Opt[Str]"},
+            "types": {"url": "Obj", "parsed": "Obj", "path": "Seq[Str]", "user_screen_name": "Opt[Str]", "route": "Str"},
             "rebinds": {"path": {}},
+            # the fragment-routing loop ('#!#!...'): exception freedom only; its termination (each turn reads a strictly shorter fragment) rests on
+            # urlsplit and is exercised by the bounded check with thousands of nested '#!'
+            "loops": {1: {"invariant": []}},
             "returns": "Opt[Obj]",
             # total on strings: only the ValueError of urllib.parse.urlsplit may escape (recorded finding), never IndexError
             "raises": {"ValueError": None},
